@@ -8,8 +8,8 @@ cases:  ["enc_sdp", P]            -> ["ok", bytes, decoded(P)] | ["error", class
         ["enc_scp", Q, n_args]    -> ["ok", bytes, decoded(Q) with n_args] | ["error", class]
         ["dec_sdp", bytes]        -> ["ok", P] | ["error", class]
         ["dec_scp", bytes, n]     -> ["ok", Q] | ["error", class]      (n null: the default n_args)
-        ["iso", kind, Q, Q']      -> [enc(Q), enc(Q')]                  (field isolation pairs)
         ["sweep16", field, base Q, lo, hi]     -> digest of the encodings with field = lo..hi-1
+        ["sweep16raw", field, base Q, lo, hi, n] -> the encodings themselves (for the oracle)
         ["sweep16dec", pos, base bytes, lo, hi] -> digest of (cmd_rc, seq) decoded with bytes pos, pos+1 = v
 """
 import struct
@@ -77,18 +77,13 @@ def run_case(c):
         return dec(SDPPacket, show_sdp, c[1])
     if k == "dec_scp":
         return dec(SCPPacket, show_scp, c[1], *([] if c[2] is None else [c[2]]))
-    if k == "iso":
-        return [enc(mk_scp(c[2])), enc(mk_scp(c[3]))]
     if k == "sweep16":
         h = 0
         q = list(c[2])
-        layout_bad = None
         for v in range(c[3], c[4]):
             q[c[1]] = v
             r = enc(mk_scp(q))
             h = digest(h, r[1]) if r[0] == "ok" else (h * 257 + 300) % MOD
-            # the bytes themselves go to the independent oracle only as (v, two bytes) of the first
-            # value whose encoding is not the base encoding with the two bytes replaced
         return ["digest", h]
     if k == "sweep16dec":
         h = 0
@@ -99,8 +94,8 @@ def run_case(c):
             h = digest(h, r[1][11:13]) if r[0] == "ok" else (h * 257 + 300) % MOD
         return ["digest", h]
     if k == "sweep16raw":
-        # every encoding of the sweep, for the oracle: [[v, bytes] ...] would be large; return the bytes
-        # at the four header positions 10..13 and whether the rest equals the base encoding
+        # for the oracle: the encoding (hex) of every packet of the sweep, and True when decoding it with
+        # n_args = c[5] gives back exactly the packet (otherwise what decoding gave)
         q = list(c[2])
         out = []
         for v in range(c[3], c[4]):
@@ -110,8 +105,7 @@ def run_case(c):
                 out.append(None)
                 continue
             d = dec(SCPPacket, show_scp, r[1], c[5])
-            out.append([r[1][10:14], r[1][:10] + r[1][14:], d[1][c[1]] if d[0] == "ok" else None,
-                        d[0] == "ok" and d[1][:c[1]] + d[1][c[1] + 1:] == q[:c[1]] + q[c[1] + 1:]])
+            out.append([bytes(r[1]).hex(), True if d == ["ok", q] else d])
         return ["raw", out]
     raise ValueError("unknown case kind %r" % (k,))
 
